@@ -61,7 +61,10 @@ def configs(tier):
          # the sixth: peer-link losses that one end learns first (the Leader
          # asks for a reconnect while the Follower still believes in its
          # connection: ABANDONING), close() somewhere around them
-         {"spake": "stub", "peer": "dilates", "focus": "abandon"}]
+         {"spake": "stub", "peer": "dilates", "focus": "abandon"},
+         # the seventh: the peer link goes silent for good (bytes vanish,
+         # nobody is told) while subchannels carry data; close() after that
+         {"spake": "stub", "peer": "dilates", "focus": "silent"}]
 
 
 class Owner:
@@ -178,6 +181,8 @@ def run_one(seed, tape, opts):
         sim.net.window = tape.pick((2000, 100000, 1 << 30), "win")
         sim.note("probe.staged_transport")
 
+    bulk = backpressure or opts.get("focus") == "silent"
+
     def script(c, dilates):
         ops = [("set_code", code)]
         extra = []
@@ -186,7 +191,7 @@ def run_one(seed, tape, opts):
                                                        == 0)}))
             for _ in range(tape.choose(4, "nsub")):
                 extra.append((tape.pick(("sub_connect", "sub_listen"), "so"),))
-            if backpressure:
+            if bulk:
                 extra += [("sub_connect",), ("sub_listen",)]
         ops = ca.interleave(tape, ops, extra)
         # dilate must precede the subchannel ops
@@ -201,7 +206,7 @@ def run_one(seed, tape, opts):
         ops.append(("wait_event_or_steps", ev, tape.choose(400, "ws")))
         if tape.choose(2, "linger"):
             ops.append(("wait_steps", tape.choose(120, "ls")))
-        if dilates and backpressure:
+        if dilates and bulk:
             # the application writes its data and closes the wormhole
             ops.append(("wait_event_or_steps", "versions", 400))
             ops.append(("wait_steps", 20 + tape.choose(200, "bw")))
@@ -209,7 +214,7 @@ def run_one(seed, tape, opts):
             if tape.choose(2, "linger2"):
                 ops.append(("wait_steps", tape.choose(60, "ls2")))
         ops.append(("close",))
-        if dilates and backpressure and tape.choose(2, "late_write") == 0:
+        if dilates and bulk and tape.choose(2, "late_write") == 0:
             # ... and goes on writing on its subchannels until it is told
             # that the wormhole has closed
             ops.append(("sub_write",))
@@ -239,6 +244,14 @@ def run_one(seed, tape, opts):
             half_dead.append(l)
             sim.note("fault.l2cut_one_sided")
 
+    bh_budget = [1 if tape.choose(3, "l2bh") == 0 or
+                 opts.get("focus") == "silent" else 0]
+
+    def l2blackhole(l):
+        bh_budget[0] -= 1
+        l.blackhole = True
+        sim.note("fault.l2_blackhole")
+
     def extra_faults():
         evs = []
         for l in half_dead:
@@ -247,6 +260,15 @@ def run_one(seed, tape, opts):
                 evs.append(("l2reveal:%d" % l.serial,
                             lambda l=l: (half_dead.remove(l),
                                          sim.net.reveal(l))))
+        if bh_budget[0] > 0:
+            # the path goes silent: bytes vanish in both directions and no
+            # end is ever told (it stays that way: closing must not depend
+            # on the peer being heard from again)
+            for link in sim.net.links:
+                if link.mode == "stream" and link.up and not link.blackhole \
+                        and all(e.alive and e.made for e in link.ends):
+                    evs.append(("l2blackhole:%d" % link.serial,
+                                lambda l=link: l2blackhole(l), 2))
         if l2cuts[0] <= 0:
             return evs
         for link in sim.net.links:
@@ -302,6 +324,28 @@ def run_one(seed, tape, opts):
                 c.do_close()
     if opts.get("focus") == "abandon":
         sim.after_step = watch_abandoning
+    if opts.get("focus") == "silent":
+        # the path goes silent a little while after both sides are connected
+        silent_after = [None, tape.choose(60, "silent_after")]
+
+        def watch_silent():
+            if bh_budget[0] <= 0:
+                return
+            ms = [c.w._boss._D._manager for c in (a, b)]
+            if any(m is None or m._connection is None for m in ms):
+                return
+            if silent_after[0] is None:
+                silent_after[0] = sim.steps + silent_after[1]
+            if sim.steps >= silent_after[0]:
+                for link in sim.net.links:
+                    if link.mode == "stream" and link.up and \
+                            not link.blackhole and \
+                            all(e.alive and e.made for e in link.ends):
+                        link.blackhole = True
+                bh_budget[0] = 0
+                sim.note("fault.l2_blackhole")
+                sim.ev("peer_links_silent")
+        sim.after_step = watch_silent
 
     def done():
         return all(c.is_closed for c in (a, b)) and w.scripts_done()
